@@ -155,3 +155,8 @@ func VHarnessSwapC01() { vhSwapStep(vhC01, 2, 1, 2, 1, 1) }
 func VHarnessSwapC02() { vhSwapStep(vhC02, 2, 2, 1, 1, 1) }
 func VHarnessSwapC06() { vhSwapStep(vhC06, 2, 2, 1, 1, 1) }
 func VHarnessSwapC15() { vhSwapStep(vhC15, 2, 2, 1, 1, 1) }
+
+// thorough tier: more pre-existing rows, a second output, a third input
+func VHarnessSwapC01Wide() { vhSwapStep(vhC01, 2, 2, 2, 2, 2) }
+func VHarnessSwapC02Wide() { vhSwapStep(vhC02, 3, 2, 1, 1, 1) }
+func VHarnessSwapC06Wide() { vhSwapStep(vhC06, 3, 2, 1, 1, 1) }
